@@ -130,6 +130,10 @@ def r07c(ctx):
               key="simplify add")
     r1 = [r for r in common.returns_of(s) if ("len(expr) == 1", True) in conditions(r)]
     ctx.check(rule, s, len(r1) == 1 and U(r1[0].value) == "expr", "single term returned unchanged", "trivial case changed", key="trivial")
+    exp = [x for x in walk_fn(s) if isinstance(x, ast.Assign) and U(x.targets[0]) == "expr" and U(x.value) == "expr.expand()"]
+    ctx.check(rule, s, len(exp) == 1 and bool(r1) and exp[0].lineno < r1[0].lineno, "term count taken from the expanded expression",
+              "the single-term shortcut is taken before the expression is expanded: a product containing a sum is returned "
+              "untouched", key="expand first")
     a = {U(x.targets[0]): U(x.value) for x in walk_fn(s) if isinstance(x, ast.Assign)}
     ctx.check(rule, s, a.get("terms") == "expr.terms" and a.get("equal_terms") == "find_compatible_terms(terms)" and a.get("expr") == "expr.expand()",
               "all terms of the expanded expression are compared", "term source changed", key="terms")
@@ -149,6 +153,18 @@ def r07e(ctx):
     ex = [n for n in walk_fn(d) if isinstance(n, ast.AugAssign) and "exponent" in U(n.value)]
     ok = len(ex) == 3 and all(("include_exponent", True) in conditions(n) for n in ex)
     ctx.check(rule, d, ok, "exponent part of the description on request", "exponent handling in description changed", key="exponent")
+    tg2 = {}
+    for n in walk_fn(d):
+        if isinstance(n, ast.AugAssign) and "target_u" in U(n.value) and "target_l" in U(n.value):
+            cs = conditions(n)
+            k = "nosym" if ("base.bra_ket_sym is S.Zero", True) in cs else "sym" if ("base.bra_ket_sym is S.Zero", False) in cs else "?"
+            tg2.setdefault(k, []).append(U(n.value))
+    symv = tg2.get("sym", [])
+    ok = tg2.get("nosym") == ["f'-{target_u}-{target_l}'"] and len(symv) == 2 and set(tg2) == {"nosym", "sym"} \
+        and any("sorted([target_u, target_l])" in v for v in symv) and any(v == "f'-{target_u + target_l}'" for v in symv)
+    ctx.check(rule, d, ok, "target names ordered upper/lower iff the tensor has no bra-ket symmetry (sorted otherwise)",
+              f"target part of the description: {tg2}; for tensors with bra-ket symmetry +-1 the upper/lower orientation depends on "
+              "the index names, so an ordered description is not invariant under renaming", key="target orientation")
     nm = [n for n in walk_fn(d) if isinstance(n, ast.AugAssign) and "name" in U(n.value) and "data" in U(n.value)]
     ctx.check(rule, d, len(nm) == 2, "tensor name and index spaces part of the description", "name/space part changed", key="name space")
     tg = [n for n in walk_fn(d) if isinstance(n, ast.AugAssign) and "target_u" in U(n.value)]
